@@ -78,6 +78,7 @@ def run_multi_evict(case):
     beyond the limit for ever - 'apart from connections it has already evicted and is closing' only excuses the closing."""
     from .c06 import run_multi_evict as run
     res = run(case)
+    res.pop("extras", None)
     cnt = {"workloads": 0, "oracle_evaluations": 0, "oracle_full_evaluations": 0, "limit_reached": 0,
            "evictions_excused": 0, "transports": 0, "oracle_evicted_closed": 0, "max_open_over_limit_excused": 0, "requests": 0}
     cnt["oracle_evicted_closed"] = res["counters"]["cancels_fired"]
